@@ -360,7 +360,7 @@ def msg_class(want, got):
 def run(tier):
     v = Verdict("C11", "exploration", tier)
     cli = common.build_cli()
-    n = 350 if tier == "quick" else 7000
+    n = 350 if tier == "quick" else 40000
     base = common.seed() * 11000027
     jobs = [(cli, i, base + i) for i in range(n)]
     res = common.pmap(run_case, jobs, chunksize=8)
